@@ -82,3 +82,13 @@ native('C13.cursor_nested', ['C13'], 'bounded', 'initial stream of 1..=2 values 
        'aquavm-air', 'air/src/execution_step/value_types/stream/recursive_stream.rs', 'cursor.rs',
        'verif_native_cursor::nested_folds_visit_each_value_once',
        what='nested RecursiveStreamCursors over one real Stream: the outer fold and every inner fold visit each value present exactly once (F14, F14b and the empty-generation bookkeeping between folds)')
+
+native('C25.adversarial_ids', ['C25', 'C14'], 'bounded', '5 JSON texts x {SHA2-256, BLAKE3-256} x (the genuine id, the digest cut to every length 0..=31, 1..=3 bytes appended, one bit flipped in each of the 32 bytes)',
+       'air-interpreter-cid', 'crates/air-lib/interpreter-cid/src/verify.rs', 'cid_adversarial.rs',
+       'verif_native_cid_adversarial::only_the_full_digest_verifies',
+       what='real cid / multihash crates and real digests: verify_value and verify_raw_value accept the genuine id and reject every id whose digest is a proper prefix, an extension or a one-bit variation of the genuine digest (the digest comparison is an uninterpreted equality in the Verus unit cid_verify)')
+
+native('C24.lens_text', ['C24', 'C01'], 'bounded', 'every lens of <= 2 (thorough: <= 3) accessors over 11 literal indices around u32::MAX and u64::MAX, 4 field names and 2 scalar names, with and without a trailing flattening sign (613 / about 10 000 lenses)',
+       'air-lambda-parser', 'crates/air-lib/lambda/parser/src/lib.rs', 'lens_text.rs',
+       'verif_native_lens_text::lens_text_denotes_its_path',
+       what='air_lambda_parser::parse: the LambdaAST has exactly the accessors the text spells, in order, with the same numbers and names; a literal index above u32::MAX is a parse error, never another index (the lexer is string code outside Verus; unit lambda starts from the LambdaAST)')
